@@ -317,6 +317,7 @@ next_ait(vbi_decoder *vbi, int pgno, int subno, cache_page **mvtp)
 	for (i = 0; i < 8; i++) {
 		if (PAGE_FUNCTION_AIT == vbi->cn->btt_link[i].function) {
 			cache_page *vtp;
+			vbi_bool keep = FALSE;
 
 			vtp = _vbi_cache_get_page
 				(vbi->ca, vbi->cn,
@@ -350,10 +351,17 @@ next_ait(vbi_decoder *vbi, int pgno, int subno, cache_page **mvtp)
 				mpgno = ait->link.pgno;
 				msubno = ait->link.subno;
 
-				if (NULL != *mvtp)
-					cache_page_unref (*mvtp);
+				keep = TRUE;
+			}
 
+			/* One reference per _vbi_cache_get_page(): hand
+			   this one to the caller if mait points into this
+			   page, drop it otherwise. */
+			if (keep) {
+				cache_page_unref (*mvtp);
 				*mvtp = vtp;
+			} else {
+				cache_page_unref (vtp);
 			}
 		}
 	}
